@@ -216,33 +216,38 @@ Inductive jset := JSEmpty | JSTrue | JSSugar (members : list val) | JSRel (r : r
 Definition is_sugar_name (n : name) : bool :=
   name_eqb n n_item || name_eqb n n_byte || name_eqb n n_value || name_eqb n n_char.
 
+(* the tail of Relation.Join once the rows are known to be neither empty nor {()}: re-sugar a
+   (@, @item|@byte|@value|@char) heading through the general set builder, else a new Relation whose
+   stored heading is leftOutput ++ rightOutput with the identity projector *)
+Definition finish_join (lo ro : list name) (rows : list row) : jset :=
+  let count := length lo + length ro in
+  let projection := seq 0 count in
+  let attrs := lo ++ ro in
+  let plain := JSRel {| r_attrs := attrs; r_p := projection; r_rows := rows |} in
+  match attrs with
+  | [n0; n1] =>
+      let (at_, val_) := if name_eqb n1 n_at then (1, 0) else (0, 1) in
+      if name_eqb (nth at_ attrs []) n_at && is_sugar_name (nth val_ attrs [])
+      then JSSugar (map (fun v => mktup [(n_at, nth at_ (pick projection v) cell0);
+                                         (nth val_ attrs [], nth val_ (pick projection v) cell0)]) rows)
+      else plain
+  | _ => plain
+  end.
+
 Definition relation_join (r r2 : relation) (keys lo ro : list name) : jres jset :=
   if ns_hasIntersect lo ro then JPanic P_outputs_intersect
   else
     match getIndices (r_attrs r) keys, getIndices (r_attrs r2) keys,
           getIndices (r_attrs r) lo, getIndices (r_attrs r2) ro with
     | Some lki, Some rki, Some loi, Some roi =>
-        let count := length lo + length ro in
-        let projection := seq 0 count in
         match positional_join (r_rows r) (r_rows r2) (compose (r_p r) lki) (compose (r_p r2) rki)
                               (compose (r_p r) loi) (compose (r_p r2) roi) with
         | JPanic s => JPanic s
         | JOk rows =>
             match rows with
-            | [] => JOk JSEmpty
-            | [[]] => JOk JSTrue
-            | _ =>
-                let attrs := lo ++ ro in
-                let plain := JOk (JSRel {| r_attrs := attrs; r_p := projection; r_rows := rows |}) in
-                match attrs with
-                | [n0; n1] =>
-                    let (at_, val_) := if name_eqb n1 n_at then (1, 0) else (0, 1) in
-                    if name_eqb (nth at_ attrs []) n_at && is_sugar_name (nth val_ attrs [])
-                    then JOk (JSSugar (map (fun v => mktup [(n_at, nth at_ (pick projection v) cell0);
-                                                            (nth val_ attrs [], nth val_ (pick projection v) cell0)]) rows))
-                    else plain
-                | _ => plain
-                end
+            | [] => JOk JSEmpty              (* rows.IsEmpty() *)
+            | [[]] => JOk JSTrue             (* rows.IsLiteralTrue() *)
+            | _ => JOk (finish_join lo ro rows)
             end
         end
     | _, _, _, _ => JPanic P_name_not_found
